@@ -394,4 +394,67 @@ def hvStep (vars : List HVar) (m : KMap) : HOp → KMap × HOut
       | none => (m, .exit)
       | some cell => ((update vars.length m (progKey i) (enc64 (x.fmt.view cell + c)) 0).1, .ok)
 
+/-! ### several loaded programs
+
+A program class can be instantiated more than once (one program per network interface), and a program
+can be closed and created again.  Every `EBPF.__init__` calls `Map.init(self, None)` for each declared
+map, which creates kernel maps of its own (`HashMap.init`, `Dict.init`: `create_map`) and stores the
+file descriptors on the *instance*; the descriptors on the class carry no per-program state.  So the
+state of the system is one pair of kernel maps per program, and an operation issued on program `j`
+(from Python through `j`'s descriptors, or by running `j`'s generated code, whose `ld_map_fd`
+instructions carry `j`'s descriptors) acts on `j`'s pair only. -/
+
+/-- the kernel maps of one loaded program: the Dict's map and the hash-variable map -/
+structure Inst where
+  dict : KMap
+  hv : KMap
+deriving Repr
+
+inductive SOp where
+  | new (j : Nat)                 -- `e = Prog(...); e.load()`: program `j` is created (again): new maps, `HashMap.load`
+  | dict (j : Nat) (op : Op)      -- a Dict operation of program `j`, from either side
+  | hvar (j : Nat) (op : HOp)     -- a hash-variable operation of program `j`, from either side
+deriving Repr
+
+def SOp.inst : SOp → Nat
+  | .new j => j
+  | .dict j _ => j
+  | .hvar j _ => j
+
+inductive SOut where
+  | loaded (o : HOut)
+  | dict (o : Out)
+  | hvar (o : HOut)
+deriving Repr, DecidableEq
+
+/-- what an operation does to the maps of the program it is issued on -/
+def instStep (D : DictDecl) (stack0 : Bytes) (vars : List HVar) (x : Inst) : SOp → Inst × SOut
+  | .new _ => ({ dict := [], hv := (hvStep vars [] .load).1 }, .loaded (hvStep vars [] .load).2)
+  | .dict _ op => ({ x with dict := (cStep D stack0 x.dict op).1 }, .dict (cStep D stack0 x.dict op).2)
+  | .hvar _ op => ({ x with hv := (hvStep vars x.hv op).1 }, .hvar (hvStep vars x.hv op).2)
+
+/-- all programs, by number (programs never created hold empty maps) -/
+abbrev Sys := Nat → Inst
+
+def setInst (s : Sys) (j : Nat) (x : Inst) : Sys := fun i => if i = j then x else s i
+
+def sysStep (D : DictDecl) (stack0 : Bytes) (vars : List HVar) (s : Sys) (op : SOp) : Sys × SOut :=
+  (setInst s op.inst (instStep D stack0 vars (s op.inst) op).1, (instStep D stack0 vars (s op.inst) op).2)
+
+/-- the observations of a run, each tagged with the program it was made on -/
+def sysRun (D : DictDecl) (stack0 : Bytes) (vars : List HVar) : Sys → List SOp → Sys × List (Nat × SOut)
+  | s, [] => (s, [])
+  | s, op :: ops =>
+    ((sysRun D stack0 vars (sysStep D stack0 vars s op).1 ops).1,
+     (op.inst, (sysStep D stack0 vars s op).2) :: (sysRun D stack0 vars (sysStep D stack0 vars s op).1 ops).2)
+
+/-- one program run on its own -/
+def instRun (D : DictDecl) (stack0 : Bytes) (vars : List HVar) : Inst → List SOp → Inst × List SOut
+  | x, [] => (x, [])
+  | x, op :: ops =>
+    ((instRun D stack0 vars (instStep D stack0 vars x op).1 ops).1,
+     (instStep D stack0 vars x op).2 :: (instRun D stack0 vars (instStep D stack0 vars x op).1 ops).2)
+
+def emptySys : Sys := fun _ => { dict := [], hv := [] }
+
 end Ebv.HashVars
